@@ -103,12 +103,21 @@ impl OrderIndex {
 ///
 /// Reordered on insert to provide partial ordering of attributes,
 /// e.g. 'id' before 'x' before 'width', etc.
-#[derive(Debug, Clone, Default, PartialEq)]
+#[derive(Clone, Default, PartialEq)]
 pub struct AttrMap {
     attrs: Vec<(String, String)>,
     /// Position of each key in `attrs`, so that lookups and inserts do not scan
     /// the list (an element may carry a great many attributes).
     index: HashMap<String, usize>,
+}
+
+// (hand-written so that the index - a hash map, with no stable order - stays out of it)
+impl fmt::Debug for AttrMap {
+    fn fmt(&self, f: &mut fmt::Formatter<'_>) -> fmt::Result {
+        f.debug_struct("AttrMap")
+            .field("attrs", &self.attrs)
+            .finish()
+    }
 }
 
 impl Display for AttrMap {
